@@ -784,6 +784,10 @@ class Fn:
             if mode == "coords":
                 env2 = env2.bind("__skipcoords", "int", "0")
         else:
+            if getattr(self, "points_only", False) and mode in ("vsites", "coords") and not self._is_vertex_mutation(s) \
+                    and not any(isinstance(n, ast.Attribute) and n.attr in ("append", "extend", "insert", "pop", "clear")
+                                and isinstance(n.value, ast.Name) and n.value.id in self.aliases for n in ast.walk(s)):
+                return "[]"      # e.g. the loop over the convex hull's simplices: appends faces only
             self.fail(s, "unsupported loop iterable")
         # leading `if c: break`  -> take-while on the index list
         while body and isinstance(body[0], ast.If) and len(body[0].body) == 1 and isinstance(body[0].body[0], ast.Break) \
@@ -1219,6 +1223,231 @@ def builder(fn):
     return "\n".join(out) + "\n"
 
 
+# ---------------------------------------------------------------------- ring: the bisection loop for the apex
+def ring_bisection(fn):
+    """rings.py:ring  -  P1 = ..; P2 = ..; A = M.vertices[a]; B = M.vertices[b]; stop = False
+                         while not stop: <float/vector assignments, one if/elif chain, stop = |..| < eps>
+                         M.vertices[0] = <apex(P1, P2)>
+    -> ring_defect_clamp, ring_bisect_init, ring_bisect_step (one pass of the loop body), ring_bisect_apex.
+    angle_3pts is abstracted as a function parameter."""
+    body = fn.body
+    wl = [x for x in body if isinstance(x, ast.While)]
+    if len(wl) != 1:
+        fn.fail(fn.node, "expected exactly one while loop")
+    w = wl[0]
+    k = body.index(w)
+    if not (isinstance(w.test, ast.UnaryOp) and isinstance(w.test.op, ast.Not) and isinstance(w.test.operand, ast.Name)) or w.orelse:
+        fn.fail(w, "loop is not `while not <flag>:`")
+    flag = w.test.operand.id
+    fn.mesh = None
+    for x in body:
+        if isinstance(x, ast.Assign) and isinstance(x.value, ast.Call) and T.dotted(x.value.func) == "RawMeshData":
+            fn.mesh = x.targets[0].id
+    if fn.mesh is None:
+        fn.fail(fn.node, "no RawMeshData()")
+    fn.ang3 = "v_ang3"
+    fn._top_vertices = []
+    env = fn.base_env()
+    pre_defect = None
+    init = {}
+    AB = {}
+    # statements before the loop that matter: the clamp of `defect`, P1, P2, A, B, flag = False
+    for x in body[:k]:
+        if not (isinstance(x, ast.Assign) and len(x.targets) == 1 and isinstance(x.targets[0], ast.Name)):
+            continue
+        nm = x.targets[0].id
+        v = x.value
+        if isinstance(v, ast.Subscript) and fn.is_mesh_attr(v.value, "vertices") and isinstance(v.slice, ast.Constant):
+            AB[nm] = v.slice.value
+            env = env.bind(nm, "vec")
+            continue
+        if isinstance(v, ast.Constant) and v.value is False and nm == flag:
+            continue
+        kd, tm = fn.coord_value(v, env)
+        if kd == "opaque":
+            continue
+        init[nm] = (kd, tm, env)
+        env = env.bind(nm, kd)
+    # free names of the loop body = state (assigned in the loop and live) + inputs
+    assigned = assigned_names(w.body)
+    state = [n for n in ("P1", "P2") if n in assigned]
+    if sorted(n for n in assigned if n in init) != sorted(state) or flag not in assigned:
+        fn.fail(w, "loop state is not (P1, P2, %s): %s" % (flag, sorted(assigned)))
+    if sorted(AB.values()) != [1, 2]:
+        fn.fail(w, "A, B are not vertices 1 and 2")
+    lets = []
+    cnt = [0]
+
+    def fresh(nm):
+        cnt[0] += 1
+        return "%s_%d" % (q(nm), cnt[0])
+
+    def run(stmts, env):
+        for st in stmts:
+            if isinstance(st, ast.Assign) and len(st.targets) == 1 and isinstance(st.targets[0], ast.Name):
+                nm = st.targets[0].id
+                if nm == flag:
+                    g = fresh(nm)
+                    lets.append((g, fbool(st.value, env)))
+                    env = env.bind(nm, "bool", g)
+                    continue
+                kd, tm = fn.coord_value(st.value, env)
+                if kd == "opaque":
+                    fn.fail(st, "untranslatable assignment in the bisection loop")
+                g = fresh(nm)
+                lets.append((g, tm))
+                env = env.bind(nm, kd, g)
+            elif isinstance(st, ast.If):
+                c = fresh("c")
+                lets.append((c, fbool(st.test, env)))
+                et = run(st.body, env)
+                ef = run(st.orelse, env)
+                for nm in sorted(assigned_names([st])):
+                    kt, tt = et.get(nm)
+                    kf, tf = ef.get(nm)
+                    if kt != kf or kt is None:
+                        fn.fail(st, "branches disagree on %s" % nm)
+                    g = fresh(nm)
+                    lets.append((g, "(if %s then %s else %s)" % (c, tt, tf)))
+                    env = env.bind(nm, kt, g)
+            else:
+                fn.fail(st, "unsupported statement in the bisection loop")
+        return env
+
+    def fbool(e, env):
+        if isinstance(e, ast.Compare) and len(e.ops) == 1 and isinstance(e.ops[0], (ast.Lt, ast.Gt)):
+            l, r = e.left, e.comparators[0]
+            if isinstance(e.ops[0], ast.Gt):
+                l, r = r, l
+            if isinstance(l, ast.Call) and T.dotted(l.func) == "abs" and len(l.args) == 1:
+                return "(oabs_lt O %s %s)" % (fn.tr_num(l.args[0], env), fn.tr_num(r, env))
+            return "(oltb O %s %s)" % (fn.tr_num(l, env), fn.tr_num(r, env))
+        fn.fail(e, "unsupported test in the bisection loop")
+
+    env0 = env
+    for n in state:
+        env0 = env0.bind(n, "vec")
+    envf = run(w.body, env0)
+    res = "(%s, %s, %s)" % (envf.get("P1")[1], envf.get("P2")[1], envf.get(flag)[1])
+    for g, tm in reversed(lets):
+        res = "(let %s := %s in\n   %s)" % (g, tm, res)
+    # after the loop: M.vertices[0] = apex(P1, P2)
+    after = [x for x in body[k + 1:] if isinstance(x, ast.Assign) and isinstance(x.targets[0], ast.Subscript)
+             and fn.is_mesh_attr(x.targets[0].value, "vertices")]
+    if len(after) != 1 or not (isinstance(after[0].targets[0].slice, ast.Constant) and after[0].targets[0].slice.value == 0):
+        fn.fail(w, "the apex is not written to vertex 0 after the loop")
+    apex = fn.tr_vec(after[0].value, env0)
+    if "defect" not in init or init["defect"][0] != "float":
+        fn.fail(fn.node, "no clamp of `defect` before the loop")
+    A = [n for n, i in AB.items() if i == 1][0]
+    B = [n for n, i in AB.items() if i == 2][0]
+    out = []
+    # the clamp, in the environment where it was evaluated (max_defect is inlined through lets)
+    clamp_env_lets = []
+    for nm, (kd, tm, _) in init.items():
+        if nm in ("defect",):
+            break
+        if kd == "float":
+            clamp_env_lets.append((q(nm), tm))
+    clamp = init["defect"][1]
+    for g, tm in reversed(clamp_env_lets):
+        clamp = let(g, tm, clamp)
+    out.append("Definition ring_defect_clamp {T : Type} (O : ops T) (v_defect : T) : T :=\n  %s." % clamp)
+    out.append("Definition ring_bisect_init {T : Type} (O : ops T) : vec T * vec T :=\n  (%s, %s)." % (init["P1"][1], init["P2"][1]))
+    out.append("Definition ring_bisect_step {T : Type} (O : ops T) (v_ang3 : vec T -> vec T -> vec T -> T) (%s %s : vec T) "
+               "(v_N : Z) (v_defect : T) (v_P1 v_P2 : vec T) : vec T * vec T * bool :=\n  %s." % (q(A), q(B), res))
+    out.append("Definition ring_bisect_apex {T : Type} (O : ops T) (v_P1 v_P2 : vec T) : vec T :=\n  %s." % apex)
+    return "\n".join(out) + "\n"
+
+
+# ---------------------------------------------------------------------- sphere_fibonacci: the point formula only
+def points_only(fn):
+    """vsites / nverts / coords of a generator whose faces come from code outside the model (scipy ConvexHull)."""
+    fn.scan_linspaces()
+    fn.points_only = True
+    fn.defs = set()
+    v = fn.run_mode("vsites")
+    ib, ia = fn.index_binders(), fn.index_args()
+    out = ["Definition %s_vsites %s : list Z :=\n  %s." % (fn.g, ib, v),
+           "Definition %s_nverts %s : Z := zlen (%s_vsites %s)." % (fn.g, ib, fn.g, ia)]
+    c = fn.run_mode("coords")
+    if c == "[]":
+        fn.fail(fn.node, "no point formula found")
+    out.append("Definition %s_coords %s : list (vec T) :=\n  %s." % (fn.g, fn.coord_binders(), c))
+    fn.defs = {"vsites", "nverts", "coords"}
+    fn.coords_skipped = None
+    fn.overrides = []
+    return "\n".join(out) + "\n"
+
+
+# ---------------------------------------------------------------------- icosphere: base mesh, rounds, projection
+def icosphere_parts(fn, table):
+    """shapes.py:icosphere  -  ico = icosahedron(center, radius)
+                               with SurfaceSubdivision(ico, False) as S: for _ in range(n_refine): S.loop_subdivision(1);
+                                   for iv in S.mesh.id_vertices: S.mesh.vertices[iv] = <projection of S.mesh.vertices[iv]>
+    -> icosphere_base_* (plumbing to icosahedron), icosphere_rounds, icosphere_project."""
+    b = fn.body
+    if len(b) != 3 or not (isinstance(b[0], ast.Assign) and isinstance(b[0].value, ast.Call)
+                           and T.dotted(b[0].value.func) == "icosahedron") or not isinstance(b[1], ast.With) \
+            or not isinstance(b[2], ast.Return):
+        fn.fail(fn.node, "unexpected structure of icosphere")
+    base = b[0].targets[0].id
+    call = b[0].value
+    callee = table["icosahedron"]
+    bound = {}
+    for (pn, pk, pd), a in zip(callee.params, call.args):
+        bound[pn] = a
+    for kw in call.keywords:
+        bound[kw.arg] = kw.value
+    env = fn.base_env()
+    cargs = []
+    for pn, pk, pd in callee.params:
+        a = bound.get(pn, pd)
+        cargs.append(fn.tr_vec(a, env) if pk == "vec" else fn.tr_num(a, env) if pk == "float" else fn.tr_bool(a, env))
+    iargs = [fn.tr_bool(bound.get(pn, pd), env) for pn, pk, pd in callee.params if pk == "bool"]
+    w = b[1]
+    it = w.items[0]
+    if not (len(w.items) == 1 and isinstance(it.context_expr, ast.Call) and T.dotted(it.context_expr.func) == "SurfaceSubdivision"
+            and isinstance(it.context_expr.args[0], ast.Name) and it.context_expr.args[0].id == base
+            and isinstance(it.optional_vars, ast.Name)):
+        fn.fail(w, "not `with SurfaceSubdivision(<base>, ..) as <name>`")
+    sd = it.optional_vars.id
+    if not (len(w.body) == 1 and isinstance(w.body[0], ast.For) and T.dotted(w.body[0].iter.func) == "range"
+            and len(w.body[0].iter.args) == 1):
+        fn.fail(w, "the with-block is not a single for loop over range(..)")
+    loop = w.body[0]
+    rounds = fn.tr_int(loop.iter.args[0], env)
+    if len(loop.body) != 2:
+        fn.fail(loop, "a round is not (loop_subdivision; projection loop)")
+    ls, pl = loop.body
+    if not (isinstance(ls, ast.Expr) and isinstance(ls.value, ast.Call) and T.dotted(ls.value.func) == sd + ".loop_subdivision"
+            and len(ls.value.args) == 1 and isinstance(ls.value.args[0], ast.Constant)):
+        fn.fail(ls, "first statement of a round is not <subdiv>.loop_subdivision(<const>)")
+    nsub = ls.value.args[0].value
+    if not (isinstance(pl, ast.For) and T.dotted(pl.iter) == sd + ".mesh.id_vertices" and len(pl.body) == 1
+            and isinstance(pl.body[0], ast.Assign) and isinstance(pl.body[0].targets[0], ast.Subscript)
+            and T.dotted(pl.body[0].targets[0].value) == sd + ".mesh.vertices"
+            and T.dotted(pl.body[0].targets[0].slice) == pl.target.id):
+        fn.fail(pl, "second statement of a round is not the projection of every vertex")
+    if T.dotted(b[2].value) != sd + ".mesh":
+        fn.fail(b[2], "the subdivided mesh is not what is returned")
+
+    class Sub(ast.NodeTransformer):
+        def visit_Subscript(self, n):
+            if T.dotted(n.value) == sd + ".mesh.vertices" and T.dotted(n.slice) == pl.target.id:
+                return ast.Name(id="__v", ctx=ast.Load())
+            return self.generic_visit(n)
+    expr = Sub().visit(pl.body[0].value)
+    proj = fn.tr_vec(expr, env.bind("__v", "vec", "v_v"))
+    out = ["Definition icosphere_base_faces := icosahedron_faces %s." % " ".join(iargs),
+           "Definition icosphere_base_nverts := icosahedron_nverts %s." % " ".join(iargs),
+           "Definition icosphere_base_coords %s : list (vec T) :=\n  icosahedron_coords O %s." % (fn.coord_binders(), " ".join(cargs)),
+           "Definition icosphere_rounds %s : Z := %s." % (fn.index_binders(), rounds),
+           "Definition icosphere_loop_passes : Z := %s." % zconst(nsub),
+           "Definition icosphere_project %s (v_v : vec T) : vec T :=\n  %s." % (fn.coord_binders(), proj)]
+    return "\n".join(out) + "\n"
+
+
 BUILDERS = [
     ("mouette/procedural/flat.py", ["triangle", "quad", "unit_grid", "unit_triangle"]),
     ("mouette/procedural/shapes.py", ["tetrahedron", "hexahedron", "icosahedron", "cylinder", "torus", "sphere_uv"]),
@@ -1258,6 +1487,16 @@ def translate():
             parts.append((rel.split("/")[-1] + ":" + nm, T.sha(src, fn.node)))
             chunks.append("(* ---- %s:%s (call plumbing) *)\n%s" % (rel, nm, text))
             table[nm] = fn
+    src, tree = loaded["mouette/procedural/rings.py"]
+    fnr = Fn("mouette/procedural/rings.py", src, tree, "ring")
+    chunks.append("(* ---- mouette/procedural/rings.py:ring (bisection loop for the apex) *)\n" + ring_bisection(fnr))
+    src, tree = loaded["mouette/procedural/shapes.py"]
+    fnf = Fn("mouette/procedural/shapes.py", src, tree, "sphere_fibonacci")
+    chunks.append("(* ---- mouette/procedural/shapes.py:sphere_fibonacci (points only; the faces come from scipy ConvexHull) *)\n" + points_only(fnf))
+    parts.append(("shapes.py:sphere_fibonacci", T.sha(src, fnf.node)))
+    fni = Fn("mouette/procedural/shapes.py", src, tree, "icosphere")
+    chunks.append("(* ---- mouette/procedural/shapes.py:icosphere (base mesh, rounds, projection) *)\n" + icosphere_parts(fni, table))
+    parts.append(("shapes.py:icosphere", T.sha(src, fni.node)))
     its = []
     if iter_deps:
         src, tree = T.load(ITER_REL)
@@ -1266,7 +1505,8 @@ def translate():
             parts.append(("iterators.py:" + nm, h))
             its.append(text)
     # ---- dispatchers (used by the correspondence): code -> model functions on (ints, bools)
-    names = [n for _, ns in BUILDERS for n in ns] + [n for _, ns in FORWARDERS for n in ns]
+    names = [n for _, ns in BUILDERS for n in ns] + [n for _, ns in FORWARDERS for n in ns] + ["sphere_fibonacci"]
+    table["sphere_fibonacci"] = fnf
     disp = []
     for what, ty in (("rejects", "bool"), ("nverts", "Z"), ("faces", "list (list Z)"), ("edges", "list (list Z)"),
                      ("cells", "list (list Z)")):
